@@ -594,7 +594,12 @@ func applySwitch(fl *file) *applyTables {
 			die("%s: empty case in the device error switch", fl.pos(cc))
 		}
 		ret, ok := cc.Body[len(cc.Body)-1].(*ast.ReturnStmt)
-		if !ok || len(ret.Results) != 2 {
+		// a case ends in `return result, err` or - the failing case - in `return r.f(...)` (a call yielding both)
+		tailCall := ok && len(ret.Results) == 1
+		if tailCall {
+			_, tailCall = ret.Results[0].(*ast.CallExpr)
+		}
+		if !ok || (len(ret.Results) != 2 && !tailCall) {
 			die("%s: case of the device error switch does not end in a return", fl.pos(cc))
 		}
 		var inner *ast.SwitchStmt
@@ -620,6 +625,9 @@ func applySwitch(fl *file) *applyTables {
 				die("%s: failing case without the code -> Failure_Type switch", fl.pos(cc))
 			}
 			return "Fail", inner
+		}
+		if tailCall {
+			die("%s: only the failing case of the device error switch may end in a call", fl.pos(cc))
 		}
 		if id, ok := ret.Results[1].(*ast.Ident); ok && id.Name == "err" {
 			return "Retry", nil
